@@ -1306,7 +1306,10 @@ func (a *Agent) replaceRemoteInPairs(oldRemote, newRemote Candidate) {
 			a.retargetKnownPairHolders(pair, replacement)
 
 			if a.getSelectedPair() == pair {
-				a.setSelectedPair(replacement)
+				// Only the candidate object behind the selected pair changes: no traffic
+				// was received, so the connection state stays what it is.
+				a.selectedPair.Store(replacement)
+				a.selectedCandidatePairNotifier.EnqueueSelectedCandidatePair(replacement)
 			}
 		}
 	}
